@@ -1053,7 +1053,12 @@ func (g *VCGen) indexAddr(x *ssa.IndexAddr) {
 	case *types.Slice:
 		s := g.val(x.X)
 		goal := fmt.Sprintf("(and (<= 0 %s) (< %s (s.len %s)))", i.T, i.T, s.T)
-		g.oblige(fmt.Sprintf("nopanic.index@%s", x.Name()), "nopanic", goal, "index out of range", x.Pos())
+		if g.fc != nil && g.fc.MayPanic && hasProp(g.fc.Props, "indexpanics") {
+			// the contract admits index-out-of-range panics (malformed input): the path continues in range
+			g.warnings = append(g.warnings, fmt.Sprintf("index at %s may panic (admitted by the contract: maypanic + indexpanics)", g.fn.Prog.Fset.Position(x.Pos())))
+		} else {
+			g.oblige(fmt.Sprintf("nopanic.index@%s", x.Name()), "nopanic", goal, "index out of range", x.Pos())
+		}
 		g.assumeHere(goal)
 		heap := g.so.sliceHeapFor(t.Elem())
 		g.addrs[x] = &Addr{Kind: "elem", Heap: heap, Ref: fmt.Sprintf("(s.base %s)", s.T), Idx: fmt.Sprintf("(sidx (s.off %s) %s)", s.T, i.T), Elem: t.Elem(), Root: t.Elem()}
